@@ -11,7 +11,7 @@ import numpy as np
 PROP = "C07"
 LEVEL = "exploration"
 VARIANTS = ("omp",)
-CASE_TIMEOUT = 300
+CASE_TIMEOUT = 1200
 RULE = ("cases = zoo crystal x supercell (even and odd multiplicities, F/I/C/R primitive cells) x input class (space-group-projected fixed point | "
         "model+periodic noise | random periodic) x level 1..3; per case: fixed point, drift and permutation residuals after the routine, idempotence, "
         "compact routine vs full routine on the harness-expanded array, full->compact->full identity, set_tensor_symmetry_PJ (projection + harness space-group residual), "
@@ -30,7 +30,7 @@ def gen_cases(tier, seed):
 
     rng = np.random.default_rng([seed, 7])
     max_atoms = 48 if tier == "quick" else 100
-    per = 6 if tier == "quick" else 30
+    per = 6 if tier == "quick" else 80
     cases = []
     for name in crystals.ZOO:
         nu = crystals.natoms(name)
